@@ -1465,9 +1465,13 @@ pub fn run(ctx: &Ctx) -> i32 {
         let nn = names.len() as u64;
         let nkinds = ENTITY_KINDS.len() as u64;
         rep.cov("reserved_names_tried", Json::Int(nn as i64));
-        let r = run_par(ctx, nn * nkinds * 2, 64, |idx, acc| {
+        // quick: every 2nd (role, scope, name) combination (the stride is odd against the role count, so every role
+        // still meets about half of the names); thorough: all
+        let stride = ctx.pick(2u64, 1u64);
+        let r = run_par(ctx, nn * nkinds * 2 / stride, 64, |idx, acc| {
+            let idx = idx * stride + (idx / nkinds) % stride;
             let mut d = Vec::new();
-            decode(idx, &[nkinds, 2, nn], &mut d);
+            decode(idx.min(nn * nkinds * 2 - 1), &[nkinds, 2, nn], &mut d);
             let name = &names[d[2] as usize];
             let src = entity(d[0] as usize, name, d[1] as usize, 0);
             let v = check_src("reserved name", &src, acc);
@@ -1545,7 +1549,10 @@ pub fn run(ctx: &Ctx) -> i32 {
         let lits = LitSpace::new(ctx.quick());
         rep.cov("literal_spellings", Json::Int(lits.spellings.len() as i64));
         rep.cov("literal_positions", Json::Int(lits.variants() as i64));
-        let r = run_par(ctx, lits.total(), 128, |idx, acc| {
+        // quick: every 2nd (spelling, position) combination; thorough: all
+        let stride = ctx.pick(2u64, 1u64);
+        let r = run_par(ctx, lits.total() / stride, 128, |idx, acc| {
+            let idx = idx * stride;
             let (src, label) = lits.source(idx);
             let v = check_src(&label, &src, acc);
             space_sample(acc, idx, 9001, "literals", &label, &src, &v);
@@ -1557,9 +1564,11 @@ pub fn run(ctx: &Ctx) -> i32 {
     {
         let nl = STMT_LEAVES.len() as u64;
         let nf = STMT_FORMS.len() as u64;
-        let r = run_par(ctx, nf * nl * nl, 64, |idx, acc| {
+        // quick: the second hole ranges over the first 8 leaves only
+        let nlb = if ctx.quick() { 8.min(nl) } else { nl };
+        let r = run_par(ctx, nf * nl * nlb, 64, |idx, acc| {
             let mut d = Vec::new();
-            decode(idx, &[nl, nl, nf], &mut d);
+            decode(idx, &[nl, nlb, nf], &mut d);
             let body = stmt_fill(STMT_FORMS[d[2] as usize], STMT_LEAVES[d[0] as usize], STMT_LEAVES[d[1] as usize]);
             let src = stmt_program(&body);
             let v = check_src("statement", &src, acc);
